@@ -93,6 +93,16 @@ def run(ctx, rep):
                              nontrivial=rc.short)
                 for p in probs:
                     rep.finding(R1, f'C05.R1/{rc.short}/{p}', m.floc(fn), rc.short, p)
+                # literals are atoms, predications and opaque sentences alike: the partner relation must not depend on the kind of base
+                for kind in ('predicated', 'opaque'):
+                    tbl2, _, probs2 = closure.partner_table(m, rc, designated, kind=kind)
+                    same = tbl2 == tbl and not probs2
+                    rep.instance(R1, ok=same, nontrivial=(rc.short, kind))
+                    if not same:
+                        fmt = lambda t: {closure.fmtlit(k): sorted(map(closure.fmtlit, v)) for k, v in t.items()}
+                        rep.finding(R1, f'C05.R1/{rc.short}/literal-kind/{kind}', m.floc(fn), rc.short,
+                                    f'for {kind} literals (base {closure.LITS[kind][0]!r}) the rule closes {fmt(tbl2)}{" with problems " + str(probs2) if probs2 else ""}; '
+                                    f'for atoms it closes {fmt(tbl)}: an unsatisfiable pair of {kind} literals is left open (or a satisfiable one closed)')
             closers.append(ptables[key][0])
         # symmetry of the union relation
         rel = {(a, b) for t in closers for a, bs in t.items() for b in bs}
